@@ -1,11 +1,397 @@
-//! (stub) binding for this area — see DESIGN.md
-use crate::util::Args;
-use anyhow::Result;
+//! Binding of spec/Range.tla (C07) to ragc_core::Decompressor::{get_contig_range, get_contig_length}.
+//!
+//! `trace-range --agc X --case D/case.json --out T.ndjson [--arc ID] [--short-max N] [--cross set|full]
+//!              [--max-short N] [--max-long N]`
+//! opens the archive with the real Decompressor and records NDJSON events.  Nothing is decided here:
+//! TLC validates every event against spec/Trace_Range.tla.  This file only drives the real API,
+//! projects (usize::MAX -> -1, Err -> -1 / panic -> -2 in the prefix column) and writes events.
+//!
+//!   {"ev":"contig", arc, sample, name, k, input:[codes]      (from case.json: the oracle)
+//!                 , got_res, got:[codes]                     (get_contig on the same handle)
+//!                 , lens:[raw_length...], rc:[0/1...]        (get_contig_segments_desc)
+//!                 , len_res, length                          (get_contig_length)
+//!                 , mode:"all"|"junction", got_first, msgs}
+//!                 , nt:{...}                                 measured classes of the queries (evidence only)
+//!   {"ev":"q", a, bs:[ends], p:[...], s:[[...]...], msgs}    one event per (contig, start)
+//! `--meta M.ndjson` additionally writes the contig events without base sequences (statistics for the orchestrator).
+//! Query plan: contigs of at most --short-max bases: ALL (start, end) in (0..len+2 + usize::MAX)^2;
+//! longer ones: W = every junction +-(k+1), S = {0, junctions, len-1, len, len+1, usize::MAX};
+//! starts in W x ends in S and starts in S x ends in W+S (--cross full: (W+S) x (W+S)).
+//!
+//! Lossless result coding inside one `q` event (the ends are ascending, so correct results are
+//! prefix-extensions of each other; without it the data would be cubic in the contig length):
+//! result_j = SubSeq(result_{j-1}, 1, p_j) \o s_j  with result_0 = <<>>;  p_j = -1 (Err) / -2 (panic)
+//! means "no sequence returned" (s_j = <<>>, result_j := <<>> for the next delta).  p_j is the length of
+//! the common prefix of two RECORDED results (never of a result and the oracle); the decoder in
+//! Trace_Range.tla reproduces every recorded result exactly and TLC compares it with RangeSpec.
+//! The encoder's round trip is asserted here (a failure is a harness error, exit 2).
+//!
+//! The CLI path (`ragc getrange` / `ctglen`) is driven by checks/c07.py.
+use crate::gen;
+use crate::util::{self, Args};
+use anyhow::{anyhow, Result};
+use ragc_core::kmer::{Kmer, KmerMode};
+use ragc_core::{Decompressor, DecompressorConfig};
+use serde_json::{json, Value};
+use std::collections::BTreeSet;
+use std::io::Write;
 
-/// Returns None when `cmd` is not one of this module's sub-commands.
 pub fn dispatch(cmd: &str, a: &Args) -> Option<Result<()>> {
-    let _ = a;
     match cmd {
+        "trace-range" => Some(trace(a)),
         _ => None,
     }
+}
+
+const MAXU: usize = usize::MAX;
+
+fn pj(x: usize) -> i64 {
+    if x == MAXU {
+        -1
+    } else {
+        x as i64
+    }
+}
+
+enum Res {
+    Ok(Vec<u8>),
+    Err(String),
+    Panic(String),
+}
+
+fn call_range(d: &mut Decompressor, s: &str, c: &str, a: usize, b: usize) -> Res {
+    match util::catch(std::panic::AssertUnwindSafe(|| d.get_contig_range(s, c, a, b))) {
+        Ok(Ok(v)) => Res::Ok(v),
+        Ok(Err(e)) => Res::Err(format!("{:#}", e)),
+        Err(p) => Res::Panic(p),
+    }
+}
+
+/// one `q` event: all ends for one start
+fn query_event(d: &mut Decompressor, s: &str, c: &str, a: usize, bs: &[usize]) -> Result<Value> {
+    let mut p: Vec<i64> = Vec::with_capacity(bs.len());
+    let mut sfx: Vec<Vec<u8>> = Vec::with_capacity(bs.len());
+    let mut msgs: Vec<String> = vec![];
+    let mut prev: Vec<u8> = vec![];
+    for &b in bs {
+        match call_range(d, s, c, a, b) {
+            Res::Ok(v) => {
+                let cp = prev.iter().zip(v.iter()).take_while(|(x, y)| x == y).count();
+                let suffix = v[cp..].to_vec();
+                // round trip of the coding (harness self-check, not a verdict on ragc)
+                let mut dec = prev[..cp].to_vec();
+                dec.extend_from_slice(&suffix);
+                if dec != v {
+                    return Err(anyhow!("delta coding round trip failed"));
+                }
+                p.push(cp as i64);
+                sfx.push(suffix);
+                prev = v;
+            }
+            Res::Err(m) => {
+                p.push(-1);
+                sfx.push(vec![]);
+                if msgs.len() < 3 {
+                    msgs.push(format!("b={}: Err {}", pj(b), m));
+                }
+                prev = vec![];
+            }
+            Res::Panic(m) => {
+                p.push(-2);
+                sfx.push(vec![]);
+                if msgs.len() < 3 {
+                    msgs.push(format!("b={}: panic {}", pj(b), m));
+                }
+                prev = vec![];
+            }
+        }
+    }
+    Ok(json!({"ev": "q", "a": pj(a), "bs": bs.iter().map(|&b| pj(b)).collect::<Vec<_>>(), "p": p, "s": sfx, "msgs": msgs}))
+}
+
+/// MEASUREMENT ONLY (evidence of non-triviality, never a verdict): classes of the queries asked, derived from
+/// the recorded descriptor list and the input length.
+#[derive(Default)]
+struct Nt {
+    queries: u64,
+    nonempty: u64,  // a < min(b, len)
+    multi: u64,     // non-empty and meets the contribution of >= 2 segments
+    overlap: u64,   // non-empty and start or clamped end lies strictly inside the k bases shared by two segments
+    rev: u64,       // non-empty and meets the contribution of a reverse-oriented segment
+    clamped: u64,   // non-empty and b > len
+    split: u64,     // non-empty and spans a junction that was produced by splitting a segment (k-mer is not a splitter)
+    tail_zero: u64, // non-empty, reaches the last base, and the list ends with a segment contributing 0 bases
+}
+impl Nt {
+    fn count(&mut self, lens: &[u64], rcs: &[u8], k: usize, l: usize, a: usize, b: usize, split_j: &[usize]) {
+        self.queries += 1;
+        let e = b.min(l);
+        if a >= e {
+            return;
+        }
+        self.nonempty += 1;
+        if b > l {
+            self.clamped += 1;
+        }
+        let (mut pos, mut touched, mut rev, mut ov) = (0usize, 0u32, false, false);
+        for (i, &x) in lens.iter().enumerate() {
+            let x = x as usize;
+            let c = if i == 0 { x } else { x.saturating_sub(k) };
+            let (s0, e0) = (pos, pos + c);
+            if c > 0 && s0 < e && e0 > a {
+                touched += 1;
+                if rcs.get(i).copied().unwrap_or(0) == 1 {
+                    rev = true;
+                }
+            }
+            if i > 0 && s0 >= k {
+                // bases [s0-k, s0) are stored in segment i-1 and again at the head of segment i
+                let lo = s0 - k;
+                if (a > lo && a < s0) || (e > lo && e < s0) {
+                    ov = true;
+                }
+            }
+            pos = e0;
+        }
+        if touched >= 2 {
+            self.multi += 1;
+        }
+        if split_j.iter().any(|&j| a < j && j < e) {
+            self.split += 1;
+        }
+        if rev {
+            self.rev += 1;
+        }
+        if ov {
+            self.overlap += 1;
+        }
+        if e == l && lens.len() > 1 && *lens.last().unwrap() as usize == k {
+            self.tail_zero += 1;
+        }
+    }
+}
+
+fn trace(a: &Args) -> Result<()> {
+    util::install_panic_hook();
+    let agc = a.get("agc")?;
+    let case: Value = serde_json::from_slice(&std::fs::read(a.get("case")?)?)?;
+    let samples = gen::from_json(&case["samples"]);
+    let arc = a.opt("arc").unwrap_or("").to_string();
+    let short_max: usize = a.num("short-max", 300usize);
+    let cross_full = a.opt("cross").unwrap_or("set") == "full";
+    let max_short: usize = a.num("max-short", usize::MAX);
+    let max_long: usize = a.num("max-long", usize::MAX);
+    let skip_short: usize = a.num("skip-short", 0usize);
+    let skip_long: usize = a.num("skip-long", 0usize);
+    let mut out = std::io::BufWriter::new(std::fs::File::create(a.get("out")?)?);
+    // --meta: the contig events without the base sequences (for the orchestrator's statistics)
+    let mut meta = match a.opt("meta") {
+        Some(p) => Some(std::io::BufWriter::new(std::fs::File::create(p)?)),
+        None => None,
+    };
+    let mut d = Decompressor::open(agc, DecompressorConfig { verbosity: 0 })?;
+    let k = d.kmer_length as usize;
+    // MEASUREMENT ONLY: the splitter set `create` determined from the first input (same calls as archive::create_like_cli),
+    // to tell junctions placed by segmentation (k-mer is a splitter) from junctions produced by splitting a segment in two.
+    let splitters: Option<Vec<u64>> = match (a.opt("first-file"), a.opt("seg")) {
+        (Some(f), Some(sg)) => {
+            let seg: usize = sg.parse()?;
+            let path = std::path::PathBuf::from(f);
+            let set = if a.flag("single") {
+                ragc_core::determine_splitters_streaming_first_sample(&path, k, seg)?.0
+            } else {
+                ragc_core::determine_splitters_streaming(&path, k, seg)?.0
+            };
+            let mut v: Vec<u64> = set.into_iter().collect();
+            v.sort_unstable();
+            Some(v)
+        }
+        _ => None,
+    };
+    let (mut n_short, mut n_long, mut n_contigs, mut n_queries, mut n_events) = (0usize, 0usize, 0usize, 0u64, 0u64);
+    let (mut seen_short, mut seen_long) = (0usize, 0usize);
+    for (si, smp) in samples.iter().enumerate() {
+        for (ci, ctg) in smp.contigs.iter().enumerate() {
+            // the archive stores the whole header line as the contig name
+            let cname = ctg.name.clone();
+            let sname = smp.name.clone();
+            let input = &ctg.seq;
+            if input.is_empty() {
+                continue; // empty records are not stored (create skips them)
+            }
+            let is_short = input.len() <= short_max;
+            if is_short {
+                seen_short += 1;
+                if seen_short <= skip_short || n_short >= max_short {
+                    continue;
+                }
+            } else {
+                seen_long += 1;
+                if seen_long <= skip_long || n_long >= max_long {
+                    continue;
+                }
+            }
+            let got_first = (si + ci) % 2 == 1;
+            let mut msgs: Vec<String> = vec![];
+            let extract = |d: &mut Decompressor, msgs: &mut Vec<String>| -> (i64, Vec<u8>) {
+                match util::catch(std::panic::AssertUnwindSafe(|| d.get_contig(&sname, &cname))) {
+                    Ok(Ok(v)) => (0, v),
+                    Ok(Err(e)) => {
+                        msgs.push(format!("get_contig: Err {:#}", e));
+                        (-1, vec![])
+                    }
+                    Err(p) => {
+                        msgs.push(format!("get_contig: panic {}", p));
+                        (-2, vec![])
+                    }
+                }
+            };
+            let mut got: Option<(i64, Vec<u8>)> = None;
+            if got_first {
+                got = Some(extract(&mut d, &mut msgs));
+            }
+            let (lens, rcs): (Vec<u64>, Vec<u8>) =
+                match util::catch(std::panic::AssertUnwindSafe(|| d.get_contig_segments_desc(&sname, &cname))) {
+                    Ok(Ok(v)) => (v.iter().map(|x| x.raw_length as u64).collect(), v.iter().map(|x| x.is_rev_comp as u8).collect()),
+                    Ok(Err(e)) => {
+                        msgs.push(format!("get_contig_segments_desc: Err {:#}", e));
+                        (vec![], vec![])
+                    }
+                    Err(p) => {
+                        msgs.push(format!("get_contig_segments_desc: panic {}", p));
+                        (vec![], vec![])
+                    }
+                };
+            let (len_res, length): (i64, i64) =
+                match util::catch(std::panic::AssertUnwindSafe(|| d.get_contig_length(&sname, &cname))) {
+                    Ok(Ok(n)) => (0, if n > i32::MAX as usize { -3 } else { n as i64 }),
+                    Ok(Err(e)) => {
+                        msgs.push(format!("get_contig_length: Err {:#}", e));
+                        (-1, 0)
+                    }
+                    Err(p) => {
+                        msgs.push(format!("get_contig_length: panic {}", p));
+                        (-2, 0)
+                    }
+                };
+            // ---- query plan (positions are derived from the INPUT length and the recorded descriptors only)
+            let l = input.len();
+            let mut junctions: Vec<usize> = vec![];
+            {
+                let mut pos = 0usize;
+                for (i, &x) in lens.iter().enumerate() {
+                    let x = x as usize;
+                    let contrib = if i == 0 { x } else { x.saturating_sub(k) };
+                    pos = pos.saturating_add(contrib);
+                    if i + 1 < lens.len() {
+                        junctions.push(pos);
+                    }
+                }
+            }
+            // junctions whose k overlap bases are not a splitter of the reference (measurement only)
+            let mut split_j: Vec<usize> = vec![];
+            if let Some(spl) = &splitters {
+                for &j in &junctions {
+                    if j >= k && j <= l {
+                        let w = &input[j - k..j];
+                        let is_spl = if w.iter().any(|&b| b > 3) {
+                            false
+                        } else {
+                            let mut km = Kmer::new(k as u32, KmerMode::Canonical);
+                            for &b in w {
+                                km.insert(b as u64);
+                            }
+                            spl.binary_search(&km.data()).is_ok()
+                        };
+                        if !is_spl {
+                            split_j.push(j);
+                        }
+                    }
+                }
+            }
+            let mut plan: Vec<(usize, Vec<usize>)> = vec![];
+            if is_short {
+                let mut all: Vec<usize> = (0..=l + 2).collect();
+                all.push(MAXU);
+                for &s in &all {
+                    plan.push((s, all.clone()));
+                }
+            } else {
+                let mut w: BTreeSet<usize> = BTreeSet::new();
+                for &j in &junctions {
+                    let lo = j.saturating_sub(k + 1);
+                    let hi = (j + k + 1).min(l + 1);
+                    for x in lo..=hi {
+                        w.insert(x);
+                    }
+                }
+                let mut sset: BTreeSet<usize> = BTreeSet::new();
+                sset.insert(0);
+                sset.extend(junctions.iter().copied().filter(|&j| j <= l + 1));
+                sset.insert(l.saturating_sub(1));
+                sset.insert(l);
+                sset.insert(l + 1);
+                sset.insert(MAXU);
+                let both: BTreeSet<usize> = w.union(&sset).copied().collect();
+                let sv: Vec<usize> = sset.iter().copied().collect();
+                let bv: Vec<usize> = both.iter().copied().collect();
+                for &s in &bv {
+                    if sset.contains(&s) || cross_full {
+                        plan.push((s, bv.clone()));
+                    } else {
+                        plan.push((s, sv.clone()));
+                    }
+                }
+            }
+            let mut qevs: Vec<Value> = Vec::with_capacity(plan.len());
+            let mut nt = Nt::default();
+            for (s, bs) in &plan {
+                qevs.push(query_event(&mut d, &sname, &cname, *s, bs)?);
+                n_queries += bs.len() as u64;
+                for &b in bs {
+                    nt.count(&lens, &rcs, k, l, *s, b, &split_j);
+                }
+            }
+            if got.is_none() {
+                got = Some(extract(&mut d, &mut msgs));
+            }
+            let (got_res, gotv) = got.unwrap();
+            writeln!(
+                out,
+                "{}",
+                json!({"ev": "contig", "arc": arc, "sample": sname, "name": cname, "k": k, "input": input, "got_res": got_res, "got": gotv,
+                       "lens": lens, "rc": rcs, "len_res": len_res, "length": length,
+                       "mode": if is_short { "all" } else { "junction" }, "got_first": got_first, "msgs": msgs,
+                       "nt": {"queries": nt.queries, "nonempty": nt.nonempty, "multi": nt.multi, "overlap": nt.overlap, "rev": nt.rev,
+                              "clamped": nt.clamped, "tail_zero": nt.tail_zero, "split": nt.split, "split_junctions": split_j.len()}})
+            )?;
+            if let Some(m) = meta.as_mut() {
+                writeln!(
+                    m,
+                    "{}",
+                    json!({"ev": "contig", "arc": arc, "sample": sname, "name": cname, "k": k, "len": input.len(), "sha": util::sha256_hex(input),
+                           "got_res": got_res, "lens": lens, "rc": rcs, "len_res": len_res, "length": length,
+                           "mode": if is_short { "all" } else { "junction" }, "events": qevs.len(),
+                           "nt": {"queries": nt.queries, "nonempty": nt.nonempty, "multi": nt.multi, "overlap": nt.overlap, "rev": nt.rev,
+                                  "clamped": nt.clamped, "tail_zero": nt.tail_zero, "split": nt.split, "split_junctions": split_j.len()}})
+                )?;
+            }
+            for e in qevs {
+                writeln!(out, "{}", e)?;
+                n_events += 1;
+            }
+            n_contigs += 1;
+            if is_short {
+                n_short += 1
+            } else {
+                n_long += 1
+            }
+        }
+    }
+    out.flush()?;
+    if let Some(m) = meta.as_mut() {
+        m.flush()?;
+    }
+    println!("{}", json!({"contigs": n_contigs, "short": n_short, "long": n_long, "queries": n_queries, "events": n_events, "k": k}));
+    Ok(())
 }
